@@ -7,7 +7,9 @@ import (
 	"fmt"
 	"math/rand/v2"
 	"os"
+	"os/exec"
 	"path/filepath"
+	"regexp"
 	"runtime"
 	"sort"
 	"strconv"
@@ -738,6 +740,9 @@ func runC08(r *mon.Run) {
 		<-done
 	}
 	_ = os.RemoveAll(scratch)
+	if r.Thorough() {
+		c08GoFuzz(r, 3000000)
+	}
 	for i := 0; i < 6 && i < len(tasks); i++ {
 		t := tasks[(i*7919)%len(tasks)]
 		r.Sample(map[string]any{"seed": t.seed.name, "mutation": t.m.desc, "class": t.m.class, "bytes": len(t.m.doc)})
@@ -789,4 +794,52 @@ func replayC08(r *mon.Run, path string) error {
 		return fmt.Errorf("recorded case still violates C08")
 	}
 	return nil
+}
+
+// c08GoFuzz runs Go's coverage-guided fuzzer on the decode+verify entry points with an execution-count budget.
+func c08GoFuzz(r *mon.Run, execs int) {
+	goBin := os.Getenv("GO")
+	if goBin == "" {
+		goBin = "go"
+	}
+	dir := filepath.Join(mon.Dir(), "harness")
+	args := []string{"test"}
+	if mf := os.Getenv("VERIF_MODFLAG"); mf != "" {
+		args = append(args, mf)
+	}
+	args = append(args, "-tags", "verif", "-run=^$", "-fuzz=FuzzProofList", fmt.Sprintf("-fuzztime=%dx", execs), "./fuzz")
+	cmd := exec.Command(goBin, args...)
+	cmd.Dir = dir
+	cmd.Env = os.Environ()
+	out, err := cmd.CombinedOutput()
+	text := string(out)
+	execRe := regexp.MustCompile(`execs: (\d+)`)
+	done := 0
+	for _, m := range execRe.FindAllStringSubmatch(text, -1) {
+		fmt.Sscan(m[1], &done)
+	}
+	r.Set("go_fuzz_executions", done)
+	if m := regexp.MustCompile(`new interesting: \d+ \(total: (\d+)\)`).FindAllStringSubmatch(text, -1); len(m) > 0 {
+		r.Set("go_fuzz_corpus_entries", m[len(m)-1][1])
+	}
+	if err == nil {
+		r.Eval("go-fuzz", "accept")
+		return
+	}
+	if strings.Contains(text, "Failing input written to") || strings.Contains(text, "panic:") {
+		input := ""
+		if m := regexp.MustCompile(`Failing input written to (\S+)`).FindStringSubmatch(text); m != nil {
+			b, _ := os.ReadFile(filepath.Join(dir, "fuzz", m[1]))
+			input = string(b)
+			_ = os.RemoveAll(filepath.Join(dir, "fuzz", "testdata"))
+		}
+		site := "unknown"
+		if m := regexp.MustCompile(`(?m)^\s+(\S*/(?:repo|gabi[^/]*)/\S+\.go:\d+)`).FindStringSubmatch(text); m != nil {
+			site = filepath.Base(m[1])
+		}
+		r.Eval("go-fuzz", "panic")
+		r.Violation("C08/panic@fuzz:"+site, "the coverage-guided fuzzer found a document that makes a verification entry point panic", map[string]any{"fuzzer_output": tail(text, 5000), "failing_input_file": input})
+		return
+	}
+	r.Inconclusive("go fuzz run failed to execute: " + tail(text, 400))
 }
